@@ -165,11 +165,16 @@ pub fn render_scene(seed: u64, w: u32, h: u32, family: u32, init: Option<Pixmap>
     }
     let ndraws = 1 + r.below(3);
     let (mut uses_recip, mut recip_gamma) = (0i128, 0i128);
-    let (pw, ph) = (3 + r.below(6), 2 + r.below(6));
+    // family 8: a pattern source with more than 32767 columns / rows (the gather index y * width + x leaves 16 bits)
+    let (pw, ph) = if family == 8 {
+        if r.below(2) == 0 { (40000, 2) } else { (2, 40000) }
+    } else {
+        (3 + r.below(6), 2 + r.below(6))
+    };
     let pat = make_pixmap(&mut r, pw, ph);
     for _ in 0..ndraws {
         let mut paint = Paint::default();
-        let kind = if family < 5 { family } else { r.below(5) };
+        let kind = if family == 8 { 4 } else if family < 5 { family } else { r.below(5) };
         let shader = match kind {
             0 => Some(Shader::SolidColor(Color::from_rgba(r.unit(), r.unit(), r.unit(), r.unit()).unwrap())),
             1 => LinearGradient::new(
@@ -199,7 +204,13 @@ pub fn render_scene(seed: u64, w: u32, h: u32, family: u32, init: Option<Pixmap>
             _ => {
                 let q = [FilterQuality::Nearest, FilterQuality::Bilinear, FilterQuality::Bicubic][r.below(3) as usize];
                 let op = [1.0f32, 0.5, 0.999, 0.3][r.below(4) as usize];
-                Some(Pattern::new(pat.as_ref(), spread(&mut r), q, op, transform(&mut r)))
+                let pts = if family == 8 {
+                    // show the far end of the long side
+                    Transform::from_translate(-((pw.max(12) - 12) as f32), -((ph.max(12) - 12) as f32))
+                } else {
+                    transform(&mut r)
+                };
+                Some(Pattern::new(pat.as_ref(), spread(&mut r), q, op, pts))
             }
         };
         paint.shader = match shader {
